@@ -278,6 +278,8 @@ def run_scenario(sc: dict) -> Result:
         if trig.get('settled'):
             w.settle()                  # let every ready callback run first (the trigger comes "right after")
         kind = trig['kind']
+        if trig.get('create_at_trigger'):
+            api.create(K, 'ns1', 'justnow', {'spec': {'justnow': True}})     # an object appears at the very instant of the trigger
         if kind in ('stop', 'cancel'):
             fire(kind)
         elif kind in ('root500', 'keepalive_fail', 'none'):
@@ -556,6 +558,12 @@ def translate(res: Result) -> Translation:
                     emit(f"Cancelled {ti['term']}", e)
                 continue
             bo = owner(by)
+            if bo is not None and bo.get('root') == 'RKiller' and ti is not None and ti['term'] is None and not st['swept'] \
+                    and tphase.get('(TRoot RKiller)') == 'ending':
+                # daemon_killer's finally is past its sweep loop: it closes its own scheduler (cleaner/spawner tasks)
+                st['swept'] = True
+                st['asked'] = [d for d in daemons_live if tphase.get(d) != 'done']
+                emit('Sweep', e)
             if ti is None or ti['term'] is None or bo is None:
                 continue
             if bo.get('root') == 'ROrch' and ti['kind'] in ('watcher', 'keepalive'):
@@ -650,7 +658,9 @@ def translate(res: Result) -> Translation:
                 st['swept'] = True
                 st['asked'] = [d for d in daemons_live]
                 emit('Sweep', e)
-            if ti.get('root') == 'RKiller' and p == 'ending':
+            if ti.get('root') == 'RKiller' and p == 'ending' and e['out'] == 'err':
+                emit('SweepFail', e)
+            elif ti.get('root') == 'RKiller' and p == 'ending':
                 for dterm in st['asked']:
                     if tphase.get(dterm) != 'done':
                         emit(f"GraceTimeout (GAbandon {daemons_live[dterm]})", e)
@@ -799,18 +809,14 @@ def monitors(ctx: fw.Ctx, res: Result, tr: Translation) -> None:
                     ctx.fail('a task of the operator was still running when the cleanup handlers started', case,
                              observed={'task': i['name'], 'finished_at_order': e['order'], 'cleanup_at_order': cl_order}, sig='cleanup-not-last')
                 if i['kind'] == 'daemon':
-                    # Documented (docs/daemons.rst): a daemon that neither exits on the stopper nor is given a
-                    # cancellation_timeout is not cancelled by the daemon killer at all, and one that swallows the
-                    # cancellation is abandoned after its timeout; both are left to run_tasks' "hung tasks" phase.
-                    name = task_label(e['task'])[len('runner of '):]
-                    spec = next((h for h in handlers_of(sc) if h['id'] == name), None)
-                    by_design = spec is not None and (spec['temper'] == 'ignores' or
-                                                      (spec['temper'] == 'cancellable' and spec['kwargs']['cancellation_timeout'] is None))
-                    if by_design:
+                    facts = daemon_facts(res, tr, e['task'], daemons)
+                    if facts['by_design']:
                         ctx.count('observed', 'abandoned-daemon-alive-during-cleanup')
                     else:
+                        facts.pop('entry')
                         ctx.fail('a daemon was still running when the cleanup handlers started', case,
-                                 observed={'task': i['name'], 'finished_at_order': e['order'], 'cleanup_at_order': cl_order}, sig='daemon-after-cleanup')
+                                 observed={'task': i['name'], 'finished_at_order': e['order'], 'cleanup_at_order': cl_order, **facts},
+                                 sig='daemon-after-cleanup')
         late = [q for q in reqs if q.order > cl_order]
         if late:
             ctx.fail('API requests were made after the cleanup handlers started', case, observed=late[0].brief(), sig='api-after-cleanup')
@@ -825,8 +831,19 @@ def monitors(ctx: fw.Ctx, res: Result, tr: Translation) -> None:
     for d in daemons:
         if (d['ended'] is None or d['ended'] > rt['t']) and not double:
             ctx.fail('a daemon survived the return of kopf.operator()', case, observed={'daemon': d['handler'], 'ended': d['ended']}, sig='daemon-survives')
-        if d['outcome'] != 'exited' and d.get('flag_at') is None and d.get('stop_seen') is None and d.get('cancelled_at') is None and not double:
-            ctx.fail('a running daemon was never asked to stop', case, observed={'daemon': d['handler'], 'uid': d['uid'], 'name': d['name']}, sig='daemon-not-asked')
+    runners = [e2 for e2 in res.events if e2['ev'] == 'new' and task_label(e2['task']).startswith('runner of ')]
+    for rn in runners:
+        facts = daemon_facts(res, tr, rn['task'], daemons)
+        d = facts.pop('entry')
+        if d is not None and d['outcome'] != 'exited' and not facts['ever_asked_to_stop'] and d.get('cancelled_at') is None \
+                and not double and not facts['by_design']:
+            ctx.fail('a running daemon was never asked to stop', case, observed={'task': task_label(rn['task']), 'object': d['name'], **facts},
+                     sig='daemon-not-asked')
+    for e2 in res.events:
+        if e2['ev'] == 'done' and e2['out'] == 'err' and e2['task'] is not res.main and res.injected is None \
+                and task_label(e2['task']) != 'startup/cleanup activities':
+            ctx.fail('a task of the operator failed although nothing was injected', case,
+                     observed={'task': task_label(e2['task']), 'exc': repr(e2['exc'])[:200]}, sig='internal-task-failure')
     # every task of the incarnation is gone at return
     if not double:
         for e in res.events:
@@ -859,6 +876,32 @@ def monitors(ctx: fw.Ctx, res: Result, tr: Translation) -> None:
             ctx.fail('a cancelled operator did not end cancelled', case, observed=repr(exc), sig='cancel-not-propagated')
 
 
+def daemon_facts(res: Result, tr: Translation, task: Any, daemons: list[dict]) -> dict:
+    """What the history says about one daemon (its runner task)."""
+    name = task_label(task)[len('runner of '):]
+    same = [x for x in res.events if x['ev'] == 'new' and task_label(x['task']) == task_label(task)]
+    k = next((j for j, x in enumerate(same) if x['task'] is task), 0)
+    entries = [d for d in daemons if d['handler'] == name]
+    d = entries[k] if k < len(entries) else None
+    born = same[k]['order'] if k < len(same) else None
+    spec = next((h for h in handlers_of(res.sc) if h['id'] == name), None)
+    # Documented (docs/daemons.rst): a daemon that neither exits on the stopper nor is given a cancellation_timeout is not
+    # cancelled by the daemon killer at all, and one that swallows the cancellation is abandoned after its timeout; both
+    # are left to run_tasks' "hung tasks" phase.
+    by_design = spec is not None and (spec['temper'] == 'ignores' or
+                                      (spec['temper'] in ('cancellable', 'exits') and spec['kwargs']['cancellation_timeout'] is None))
+    killer_failed = any(x['ev'] == 'done' and x['out'] == 'err' and task_label(x['task']) == 'daemon killer' for x in res.events)
+    return {'entry': d, 'by_design': by_design, 'killer_failed': killer_failed,
+            'spawned_after_shutdown_began': born is not None and res.trigger_order is not None and born > res.trigger_order,
+            'ever_asked_to_stop': bool(d and (d.get('flag_at') is not None or d.get('stop_seen') is not None)),
+            'sweep_before_spawn': sweep_before(tr, born)}
+
+
+def sweep_before(tr: Translation, born: int | None) -> bool:
+    sw = [o for l, o in zip(tr.labels, tr.origin) if l == 'Sweep']
+    return bool(sw) and born is not None and sw[0] < born
+
+
 def failed_core(res: Result) -> bool:
     return any(e['ev'] == 'done' and e['out'] == 'err' and task_label(e['task']) == 'credentials retriever' for e in res.events)
 
@@ -885,6 +928,31 @@ def match_f10(f: dict) -> bool:
         return False
     ens = ('watcher for ', 'peering observer for ', 'peering keep-alive for ', 'worker for ', 'anon:touch:')
     return all(any(x.startswith(p) for p in ens) for x in failed)
+
+
+def match_f2001(f: dict) -> bool:
+    """F2001: only a daemon that was spawned after the shutdown began AND after the daemon killer's final sweep, and was
+    never asked to stop.  A daemon that existed at the sweep and still outlives it is a different violation."""
+    if f['sig'] not in ('daemon-after-cleanup', 'daemon-not-asked'):
+        return False
+    obs = f.get('observed') or {}
+    return bool(obs.get('spawned_after_shutdown_began')) and bool(obs.get('sweep_before_spawn')) and not obs.get('ever_asked_to_stop') \
+        and not obs.get('killer_failed')
+
+
+def match_f2002(f: dict) -> bool:
+    """F2002: the daemon killer itself dies of 'dictionary changed size during iteration' in its exit sweep, and what follows
+    from that in the same run (daemons never asked to stop / alive during cleanup / the RuntimeError re-raised)."""
+    obs = f.get('observed') or {}
+    if f['sig'] == 'internal-task-failure':
+        return obs.get('task') == 'daemon killer' and 'dictionary changed size during iteration' in (obs.get('exc') or '')
+    if f['sig'] == 'daemon-not-asked':
+        return bool(obs.get('killer_failed')) and not obs.get('ever_asked_to_stop')
+    if f['sig'] == 'daemon-after-cleanup':      # asked or not: nobody waits for the stoppers once the killer is dead
+        return bool(obs.get('killer_failed'))
+    if f['sig'] == 'stop-raises':
+        return 'dictionary changed size during iteration' in str(obs)
+    return False
 
 
 # --------------------------------------------------------------------------------------------
@@ -981,6 +1049,9 @@ def grid(ctx: fw.Ctx) -> list[dict]:
             for cleanup in ('ok', 'none', 'fail', 'two'):
                 add(daemons=ds, cleanup=cleanup, trigger={'kind': kind, 'at': 10})
             add(daemons=ds, handler_duration=4, objects=2, trigger={'kind': kind, 'at': 12, 'inflight': True})
+            if ds != 'ignores':    # (a daemon that swallows the only cancellation it ever gets blocks the exit: by design)
+                add(daemons=ds, objects=0, trigger={'kind': kind, 'at': 10, 'create_at_trigger': True})
+                add(daemons=ds, objects=1, handler_duration=2, trigger={'kind': kind, 'at': 10, 'create_at_trigger': True, 'settled': True})
     # 3. peering
     for kind in ('stop', 'cancel'):
         for ds in ('none', 'obeys'):
@@ -1063,7 +1134,7 @@ def check_scenario(ctx: fw.Ctx, sc: dict, cases: list[fw.Case], label: str = '')
 
 
 def run(ctx: fw.Ctx) -> int:
-    ctx.matchers = {'F10': match_f10}
+    ctx.matchers = {'F10': match_f10, 'F2001': match_f2001, 'F2002': match_f2002}
     ctx.proofs()
     ok, logtxt = fw.build_models(['Model/Lifecycle.v'])
     if not ok:
